@@ -379,7 +379,14 @@ func answer(rc *algo.ReachabilityCache, q Q) string {
 	}
 }
 
+type heldAnswer struct {
+	bm   cardinality.Duplex[uint64]
+	was  []uint64
+	what string
+}
+
 func exec(t *testing.T, w WL, cfg simrt.Config) simh.Outcome {
+	var held []heldAnswer
 	var (
 		bad      string
 		class    string
@@ -520,8 +527,10 @@ func exec(t *testing.T, w WL, cfg simrt.Config) simh.Outcome {
 					}
 					continue
 				case "reach":
-					got = sorted(rc.ReachOfComponentContainingMember(q.A, gdir(q.Dir)).Slice())
+					bm := rc.ReachOfComponentContainingMember(q.A, gdir(q.Dir))
+					got = sorted(bm.Slice())
 					want = keys(truth)
+					held = append(held, heldAnswer{bm, got, fmt.Sprintf("query %d: reach(%d,%s)", qi, q.A, q.Dir)})
 				case "slice":
 					u := map[uint64]bool{}
 					for _, d := range rc.ReachSliceOfComponentContainingMember(q.A, gdir(q.Dir)) {
@@ -533,6 +542,7 @@ func exec(t *testing.T, w WL, cfg simrt.Config) simh.Outcome {
 				case "or":
 					d := cardinality.NewBitmap64With(q.Seed...)
 					rc.OrReach(q.A, gdir(q.Dir), d)
+					held = append(held, heldAnswer{d, sorted(d.Slice()), fmt.Sprintf("query %d: or(%d,%s)", qi, q.A, q.Dir)})
 					exp := map[uint64]bool{}
 					for _, v := range q.Seed {
 						exp[v] = true
@@ -560,6 +570,13 @@ func exec(t *testing.T, w WL, cfg simrt.Config) simh.Outcome {
 				if fmt.Sprint(got) != fmt.Sprint(want) {
 					bad, class = fmt.Sprintf("query %d: %s(%d,%s) = %v, breadth-first search of the edge list gives %v", qi, q.K, q.A, q.Dir, got, want), "oracle:reach"
 					return
+				}
+				// answers already handed out belong to the caller: later queries must not rewrite them
+				for _, h := range held {
+					if now := sorted(h.bm.Slice()); fmt.Sprint(now) != fmt.Sprint(h.was) {
+						bad, class = fmt.Sprintf("%s returned %v; after query %d (%s(%d,%s)) the same answer reads %v", h.what, h.was, qi, q.K, q.A, q.Dir, now), "oracle:reach"
+						return
+					}
 				}
 			}
 			st := rc.Stats()
